@@ -1330,7 +1330,7 @@ def ns_attr(it, ns, name):
         if name == 'add':
             return Obj(None, {'name': 'add'}, tag='ufunc')
         if name == 'random':
-            raise Unsupported('np.random')
+            return T.Namespace('np.random')
         if name in ('int', 'float', 'complex', 'bool'):
             return T.TypeTag(name)
     if n in ('np.linalg', 'spla') and name == 'LinAlgError':
@@ -1554,9 +1554,34 @@ class NdIter:
     pass
 
 
+@np_fn('rand', ns='np.random')
+def np_random_rand(it, *shape):
+    """contract: an array of the requested shape with arbitrary entries in [0, 1); a python float when called without arguments"""
+    shape = tuple(conc(d) for d in shape)
+    if not all(isinstance(d, int) for d in shape):
+        raise Unsupported('np.random.rand with symbolic shape')
+    data = np.empty(shape, dtype=object)
+    for idx in np.ndindex(*shape):
+        r = it.ctx.fresh('rand', 'real')
+        it.ctx.assume(z3.And(r >= 0, r < 1))
+        data[idx] = r
+    if shape == ():
+        return data[()]
+    return CArr(data, 'real')
+
+
 @np_fn('nditer')
 def np_nditer(it, a, flags=(), op_flags=None, **k):
-    a = a if is_arr(a) else to_carr(a)
+    if a is None:
+        raise PyExc('ValueError', 'Iterator operand was NULL')
+    if not is_arr(a):
+        if isinstance(a, Obj):
+            # an object that is not an ndarray (e.g. a scipy sparse matrix) is converted to a 0-d object array: not writeable back
+            raise PyExc('TypeError', 'Iterator operand is flagged as writeable, but is an object which cannot be written back to')
+        if op_flags and any(f in ('readwrite', 'writeonly') for f in op_flags):
+            # numpy: scalars and lists are converted to a temporary array, which cannot be written back to
+            raise PyExc('TypeError', 'Iterator operand is flagged as writeable, but is an object which cannot be written back to')
+        a = to_carr(a)
     if not isinstance(a, CArr):
         raise Unsupported('nditer over a symbolic-shape array')
     idxs = list(np.ndindex(*a.shape))
